@@ -58,7 +58,8 @@ MANIFEST = dict(
               "summaries",
 )
 FLOORS = {"C04.1": 4, "C04.2": 4, "C04.3": 8, "C04.4": 3, "C04.5": 2,
-          "C04.6": 14, "C04.7": 3, "C04.8": 2, "C04.9": 4, "C04.10": 2}
+          "C04.6": 14, "C04.7": 3, "C04.8": 2, "C04.9": 4, "C04.10": 2,
+          "C04.11": 2}
 
 ALIGN = "evo.core.trajectory.PosePath3D.align"
 ORIGIN = "evo.core.trajectory.PosePath3D.align_origin"
@@ -610,6 +611,18 @@ def _umeyama_scale(ctx):
     # s*R*p + t" rest on what PosePath3D.scale does in every cache state
     n = import_rules(ctx, "c08", ("C08.6",), "C04.8")
     ctx.require(n >= 2, "C04.8: scale-effect instances not found")
+    # ... and on scale / transform building *new* pose matrices: a matrix
+    # that occurs twice in the list, or is shared with the reference, would
+    # receive an in-place operation twice / move the reference (C16.2)
+    n = import_rules(ctx, "c16", ("C16.2",), "C04.8",
+                     pred=lambda o: ".PosePath3D." in o.key or
+                     ".PoseTrajectory3D." in o.key)
+    ctx.require(n >= 3, "C04.8: pose-storage write instances not found")
+    # the similarity that is applied and recorded is assembled by
+    # lie.se3 / lie.sim3: [[s*R, t], [0, 1]] exactly, for every s (C09.2)
+    n = import_rules(ctx, "c09", ("C09.2",), "C04.11",
+                     pred=lambda o: o.key.split(":")[-1] in ("se3", "sim3"))
+    ctx.require(n >= 2, "C04.11: se3 / sim3 instances not found")
 
 
 VARIANTS = [
